@@ -86,6 +86,12 @@ CLAIMS = {
         "Trusted: determinism of jinja2/cantools/dict order; uses of a set stored in a variable are UNDECIDED.",
         "DESIGN.md §4 C17",
     ),
+    "C05": (
+        "def-use provenance of every argument of the CanSignal/CanMessage constructions (iteration-local resolution, linear forms for the start bit, constant-mapping check for byte order), unconditional-construction rule, per-iteration layout rule",
+        "Narrow (provenance of every DBC attribute): each signal attribute derives from the layout attribute the property names, of the leaf being iterated (name, start with +7 exactly on the non-little branch, length, byte order, signedness, float marker, unit, multiplexer flag/ids/selector), every value used is recomputed in each iteration on every path, the construction is unconditional in a loop over the whole layout; each message takes id, name and bus from the binding being iterated and its signals and byte length from the builder call on encoder.generate(<that binding>) of the same iteration; only CAN bindings are iterated; results are keyed by bus. Does NOT decide what cantools prints/reads, Motorola start-bit arithmetic for unaligned big-endian signals, or that frames decode through the DBC.",
+        "Trusted: cantools; the layout itself (C04).",
+        "DESIGN.md §4 C05",
+    ),
 }
 
 NOT_BUILT = "check not built yet in this session (see DESIGN.md §7 build order); not claimed until it exists"
